@@ -244,6 +244,10 @@ func (P *Program) Implementations(iface *types.Interface, method string) []*ssa.
 						fn = d
 					}
 				}
+				if fn.Synthetic != "" || len(fn.Blocks) == 0 {
+					// promoted through an embedded interface: a delegator, not an implementation
+					continue
+				}
 				if !isSubjectPkg(fnPkgPath(fn)) {
 					continue
 				}
